@@ -125,6 +125,31 @@ def run(R):
         else:
             R.traces += 1
     R.samples.append({'history': [list(c) for c in hist[:4]], 'last_outcome': got})
+    # ---- transient texts ----
+    # texts that are built at run time and dropped after the call: the next text of the same length is likely to live at
+    # the same address.  Line breaks sit at different places, so anything remembered about an earlier text (by address,
+    # by length) shows in the lines and columns of spans and error positions.
+    LINES = 'ignore /[ \\n]+/\nclass W { w: /[a-z]+/ }\nstart = W+\n'
+    shapes = ['ab\ncd\nef\ngh', 'abcd\nefgh\ni', 'a\nbcdefghi\n', 'abcdefghijk', '\n\n\nabcdefgh', 'ab cd\nef!gh', 'abc\n!efg\nhi', 'a b\nc d\ne f',
+              'ab\ncd', 'abc\nd', 'a\nbcd', 'ab!\nc', '\nabcd', 'abcde']
+    lref = {}
+    for h in range(40 if quick else 800):
+        g = Grammar(LINES)
+        seq = [rnd.choice(shapes) for _ in range(rnd.randrange(2, 12))]
+        for i, shape in enumerate(seq):
+            full = rnd.choice([True, False])
+            if (shape, full) not in lref:
+                lref[(shape, full)] = do_call({'lines': Grammar(LINES)}, ('lines', shape, 0, full))
+            t = ''.join(list(shape))                # a new object every time
+            got = do_call({'lines': g}, ('lines', t, 0, full), edit=True)
+            del t
+            R.count('transient-texts', (tuple(seq[:i]), shape, full), nontrivial=i > 0)
+            if got != lref[(shape, full)]:
+                R.counterexample('transient-texts', 'outcome-depends-on-earlier-calls', {'grammar': LINES, 'earlier_texts': seq[:i], 'text': shape,
+                                 'fullparse': full, 'note': 'every text is a fresh object that is dropped after its call'}, lref[(shape, full)], got)
+                break
+        else:
+            R.traces += 1
     # ---- threads ----
     mods = fresh_modules()
     old = sys.getswitchinterval()
